@@ -136,6 +136,8 @@ pub struct Config {
     pub lock_yield: u32,
     /// write-buffer limit of the management API's HTTP server (0: hyper's default, about 400 KB); a tuning knob, varied per plan
     pub api_buf: usize,
+    /// probability (per mille) that a UDP socket with SO_REUSEADDR bound to port 0 is given a port another such socket holds
+    pub udp_port_reuse: u32,
     /// deliver ICMP port-unreachable as ECONNREFUSED on connected UDP sockets
     pub udp_icmp: bool,
 }
@@ -151,6 +153,7 @@ impl Default for Config {
             spawn_yield: 0,
             lock_yield: 0,
             api_buf: 0,
+            udp_port_reuse: 0,
             udp_icmp: false,
         }
     }
